@@ -31,3 +31,8 @@ def run(ctx) -> None:
     from ..models import make_interp as _mk
     from ..streamshapes import end_to_end
     end_to_end(ctx, _mk(ctx.p), "C03", "C03.Z.found-where-the-property-says", "C03.Z.not-found-elsewhere")
+    # W: the canonical witness listing of every skeleton is found, first character to last (stream templates)
+    from ..models import make_interp as _mkw
+    from ..streamshapes import witnesses
+    if ctx.tier == "thorough" or ('ops', 'opnd', 'nest'):
+        witnesses(ctx, _mkw(ctx.p), "C03.W.canonical-witness-is-found", tags=('ops', 'opnd', 'nest') if ctx.tier != "thorough" or "C03" != "C07" else ())
